@@ -206,7 +206,8 @@ func readAccountName(r *bufio.Reader) (string, bool) {
 	ok1 := readSymbolAndExpect(r, "name")
 	nm, ok2 := readPotentialStringOrSymbol(r)
 	ok3 := sexp.ReadListEnd(r)
-	return nm, ok1 && ok2 && ok3
+	// a name with a double quote (possible when it is written as a symbol) could not be written back
+	return nm, ok1 && ok2 && ok3 && bytes.IndexByte([]byte(nm), '"') < 0
 }
 
 func readAccountProtocol(r *bufio.Reader) (string, bool) {
